@@ -282,7 +282,8 @@ def branch_agreement(chk, F, ty, fimp):
             continue
         chk.count("interface methods compared with the float instance")
         for x in SAMPLES:
-            env = {("v", "a.re", ()): x, ("c", "EPS"): EPS_VALUE}
+            env = dict(CONST_ENV)
+            env.update({("v", "a.re", ()): x, ("c", "EPS"): EPS_VALUE})
             key = "branch|%s|%s|x=%s" % (ty, name, x)
             try:
                 sp = Spec(ty)
